@@ -14,8 +14,9 @@
 (* Script kinds (the same kind is the same byte string):                    *)
 (*   "true" OP_TRUE, "noptrue" OP_NOP OP_TRUE, "empty" no bytes: spendable  *)
 (*   by anyone (so that real blocks spending them are valid);               *)
-(*   "opret" OP_RETURN <data>, "p2pkh", "genesis" (the script of the        *)
-(*   genesis coinbase): never spent.                                        *)
+(*   "opret" OP_RETURN <data>, "p2pkh", "unparse" (truncated push),         *)
+(*   "oversize" (10001 bytes), "genesis" (the script of the genesis         *)
+(*   coinbase): never spent; all but "opret" are filter elements.           *)
 (* A coinbase output may be spent by a block at least Maturity (= 1) higher.*)
 (*                                                                         *)
 (* The content rule, NeverMiss and Exact are those of Basic.tla.  `case` is *)
@@ -37,11 +38,11 @@ Maturity == 1
 SpendKinds == {"true", "noptrue", "empty"}
 
 CbChoices == IF Thorough
-             THEN { <<"true">>, <<"empty">>, <<"true", "opret">>, <<"p2pkh", "noptrue">> }
-             ELSE { <<"true">>, <<"empty", "opret">> }
+             THEN { <<"true">>, <<"empty", "unparse">>, <<"true", "opret">>, <<"p2pkh", "noptrue">> }
+             ELSE { <<"true", "unparse">>, <<"empty", "opret">> }
 TxChoices == IF Thorough
-             THEN { <<"noptrue">>, <<"empty", "p2pkh">>, <<"opret">> }
-             ELSE { <<"noptrue", "p2pkh">>, <<"empty">> }
+             THEN { <<"noptrue", "oversize">>, <<"empty", "p2pkh">>, <<"opret">> }
+             ELSE { <<"noptrue", "oversize">>, <<"empty">> }
 
 Coin(hg, tx, out, kind, cb) == [hgt |-> hg, tx |-> tx, out |-> out, kind |-> kind, cb |-> cb]
 CoinsOf(hg, tx, outs, cb)  == { Coin(hg, tx, i, outs[i], cb) : i \in 1..Len(outs) }
